@@ -69,6 +69,10 @@ func (e Emis) logd(x []float64) float64 {
 		return poissonLog(x[0], e.P[0])
 	case "categorical":
 		return math.Log(e.P[int(x[0])])
+	case "geometric": // p (1-p)^k on k = 0,1,2,...
+		return logf("geometric", nil, e.P, x)
+	case "negbinomial": // P = [r, p]: Gamma(r+k)/(k! Gamma(r)) p^k (1-p)^r, r fixed
+		return logf("negbin", e.P[:1], e.P[1:], x)
 	case "vnormal":
 		return logf("vnormal", nil, e.P, x)
 	case "product":
@@ -97,8 +101,10 @@ type HmmPar struct {
 }
 
 type EMCase struct {
-	Kind     string        `json:"kind"` // smix | vmix | hmm
+	Kind     string        `json:"kind"` // smix | vmix | hmm | dmix (scalarEstimator.DiscreteMixtureEstimator)
 	Label    string        `json:"label"`
+	Route    string        `json:"route,omitempty"`    // dmix: setdata+estimate (summarised data set) | estimateondata | plain (MixtureEstimator)
+	DataSet  string        `json:"data_set,omitempty"` // hmm: "" = HmmEstimator (HmmStdDataSet) | summarized (NewHmmSummarizedDataSet + generic.BaumWelchAlgorithm)
 	SigmaMin float64       `json:"sigma_min,omitempty"`
 	Mix      *Emis         `json:"initial_mixture,omitempty"`
 	Hmm      *HmmPar       `json:"initial_hmm,omitempty"`
@@ -262,6 +268,10 @@ func snapScalar(d st.ScalarPdf) Emis {
 		return Emis{Family: "poisson", P: []float64{x.Lambda.GetFloat64()}}
 	case *sd.CategoricalDistribution:
 		return Emis{Family: "categorical", P: expv(vecf(x.Theta))}
+	case *sd.GeometricDistribution:
+		return Emis{Family: "geometric", P: vecf(x.GetParameters())}
+	case *sd.NegativeBinomialDistribution:
+		return Emis{Family: "negbinomial", P: []float64{x.R.GetFloat64(), x.P.GetFloat64()}}
 	case *sd.Mixture:
 		e := Emis{Family: "mixture", W: expv(vecf(x.LogWeights))}
 		for _, c := range x.Edist {
@@ -292,6 +302,22 @@ func snapVector(d st.VectorPdf) Emis {
 	panic(fmt.Sprintf("harness: cannot snapshot %T", d))
 }
 
+func snapHmm(x *vd.Hmm, h *HmmPar) HmmPar {
+	m := len(h.Pi)
+	s := HmmPar{Pi: expv(vecf(x.Pi)), Map: append([]int{}, x.StateMap...), Start: h.Start, Final: h.Final}
+	for a := 0; a < m; a++ {
+		row := make([]float64, m)
+		for c := 0; c < m; c++ {
+			row[c] = math.Exp(x.Tr.At(a, c).GetFloat64())
+		}
+		s.Tr = append(s.Tr, row)
+	}
+	for _, e := range x.Edist {
+		s.E = append(s.E, snapScalar(e))
+	}
+	return s
+}
+
 /* estimators from harness models
  * -------------------------------------------------------------------------- */
 
@@ -303,6 +329,10 @@ func mkScalarEst(e Emis, smin float64) (st.ScalarEstimator, error) {
 		return se.NewPoissonEstimator(e.P[0])
 	case "categorical":
 		return se.NewCategoricalEstimator(append([]float64{}, e.P...))
+	case "geometric":
+		return se.NewGeometricEstimator(e.P[0])
+	case "negbinomial":
+		return se.NewNegativeBinomialEstimator(e.P[0], e.P[1])
 	case "mixture":
 		subs := make([]st.ScalarEstimator, len(e.Sub))
 		for i, s := range e.Sub {
@@ -396,7 +426,12 @@ func runTrajectory(cs *EMCase) (tr []step, err error) {
 				xs[k] = ad.NewDenseFloat64Vector(append([]float64{}, v...))
 			}
 			return est.EstimateOnData(xs, nil, pool1)
+		case "dmix":
+			return runDiscreteMixture(cs, &tr)
 		case "hmm":
+			if cs.DataSet == "summarized" {
+				return runSummarizedHmm(cs, &tr)
+			}
 			h := cs.Hmm
 			m := len(h.Pi)
 			pi := ad.NewDenseFloat64Vector(append([]float64{}, h.Pi...))
@@ -415,19 +450,7 @@ func runTrajectory(cs *EMCase) (tr []step, err error) {
 				ests[i] = x
 			}
 			hook := generic.BaumWelchHook{Value: func(b generic.BasicHmm, i int, L, eps float64) {
-				x := b.(*vd.Hmm)
-				s := HmmPar{Pi: expv(vecf(x.Pi)), Map: append([]int{}, x.StateMap...), Start: h.Start, Final: h.Final}
-				for a := 0; a < m; a++ {
-					row := make([]float64, m)
-					for c := 0; c < m; c++ {
-						row[c] = math.Exp(x.Tr.At(a, c).GetFloat64())
-					}
-					s.Tr = append(s.Tr, row)
-				}
-				for _, e := range x.Edist {
-					s.E = append(s.E, snapScalar(e))
-				}
-				tr = append(tr, step{i: i, L: L, hmm: s})
+				tr = append(tr, step{i: i, L: L, hmm: snapHmm(b.(*vd.Hmm), h)})
 			}}
 			est, err := ve.NewHmmEstimator(pi, tm, h.Map, h.Start, h.Final, ests, emEps, cs.maxSteps(), hook)
 			if err != nil {
@@ -472,6 +495,10 @@ func runEMCase(c *vf.Ctx, cs *EMCase, idx int64) {
 	}
 	c.Eval(1)
 	tr, err := runTrajectory(cs)
+	if (cs.Kind == "dmix" && cs.Route == routeSummarised) || (cs.Kind == "hmm" && cs.DataSet == "summarized") {
+		// differential: the run on the summarised data set against the standard estimator on the same (expanded) data
+		diffAgainstStandard(c, cs, tr, err, viol)
+	}
 	if cs.Kind == "hmm" && math.IsInf(hmmLoglik(*cs.Hmm, cs.Data), -1) {
 		// inadmissible start: the data has probability zero under the initial model. There is
 		// no likelihood to improve; the only demand is a loud failure.
@@ -887,4 +914,6 @@ func runEM(c *vf.Ctx, thorough bool) {
 			each(EMCase{Kind: "hmm", Label: "hmm,m=2,nested-mixture-of-normals", SigmaMin: 0.5, Hmm: &h, Data: d})
 		}
 	}
+	// ---- summarised data sets (discrete.go)
+	enumSummarised(thorough, each, poissonOpts, catOpts, rows, seqData, pairData)
 }
